@@ -15,22 +15,24 @@ from vlib.core import HELD, SKIPPED, VIOLATED, Check, result
 
 METHODS = ["linear", "comoving", "logspace"]
 UNITS = ["kpc", "Mpc", "rad", "deg", "arcmin", "arcsec", "kpc/h", "Mpc/h"]
-COSMOS = [None, "Planck15", "WMAP9", "Planck18", "custom", "custom2", "flcdm"]
+COSMOS = [None, "Planck15", "WMAP9", "Planck18", "custom", "custom2", "custom3", "flcdm", "flcdm-curved"]
 
 
-def make_custom_cosmology(h0=70.0, om0=0.3):
-    from astropy.cosmology import FlatLambdaCDM
+def make_custom_cosmology(h0=70.0, om0=0.3, ode0=None):
+    from astropy.cosmology import FlatLambdaCDM, LambdaCDM
 
     from yaw.cosmology import CustomCosmology
 
     class MyCosmo(CustomCosmology):
         _c = FlatLambdaCDM(H0=h0, Om0=om0)
+        # with ode0 the model is curved: its angular diameter distance is NOT comoving_distance / (1 + z)
+        _a = _c if ode0 is None else LambdaCDM(H0=h0, Om0=om0, Ode0=ode0)
 
         def comoving_distance(self, z):
-            return self._c.comoving_distance(z).value
+            return self._a.comoving_distance(z).value
 
         def angular_diameter_distance(self, z):
-            return self._c.angular_diameter_distance(z).value
+            return self._a.angular_diameter_distance(z).value
 
     return MyCosmo()
 
@@ -44,6 +46,12 @@ def resolve_cosmology(c):
         return make_custom_cosmology()
     if c == "custom2":
         return make_custom_cosmology(62.0, 0.41)
+    if c == "custom3":
+        return make_custom_cosmology(66.0, 0.33, ode0=1.15)
+    if isinstance(c, str) and c.startswith("flcdm-curved"):
+        from astropy.cosmology import LambdaCDM
+
+        return LambdaCDM(H0=64.0, Om0=0.36, Ode0=1.1)
     if isinstance(c, str) and c.startswith("flcdm"):
         # an unnamed astropy model (name None): parameters from the tag "flcdm:<H0>:<Om0>"
         from astropy.cosmology import FlatLambdaCDM
@@ -150,7 +158,7 @@ def gen_delta(rng, p):
         elif c == "closed":
             d["closed"] = str(rng.choice(["left", "right"]))
         elif c == "cosmology":
-            d["cosmology"] = str(rng.choice(["Planck15", "WMAP9", "Planck18", "WMAP5", "custom", "custom2", "flcdm:71.5:0.27"]))
+            d["cosmology"] = str(rng.choice(["Planck15", "WMAP9", "Planck18", "WMAP5", "custom", "custom2", "custom3", "flcdm:71.5:0.27", "flcdm-curved"]))
         elif c == "max_workers":
             d["max_workers"] = int(rng.integers(1, 9))
         elif c == "edges":
